@@ -44,7 +44,8 @@ install(generic_file('data/d1'), directory=Path('share/kitchen', InstallRoot.dat
 install(man_page('man/k.1', compress=False))
 pkg_config('kitchen', version='1.2', includes=[hdrs, hdrs2, hdrs3], libs=[libfoo, baz, qux, stat],
            # (the same dependency constrained twice, with equal versions spelt differently)
-           requires=['zlib >= 1.0', 'libpng', 'zlib >= 1.0.0'], requires_private=['bzip2 >= 1', 'bzip2 >= 1.0'])
+           requires=[('zlib', '>=1.0'), 'libpng', ('zlib', '>=1.0.0')],
+           requires_private=[('bzip2', '>=1'), ('bzip2', '>=1.0')])
 extra_dist(files=['README'], dirs=['man'])
 submodule('sub')
 for name in sorted(set(['o3', 'o1', 'o2'])):
